@@ -113,7 +113,7 @@ def d2(chk, prog):
         if out is None:
             continue
         depth, zyg, cnt = out
-        ok = same(zyg, gts[gt]) and (depth is None if dwant_eff is None else (depth is not None and same(depth, dwant_eff))) and (cnt is None if cwant is None else (cnt is not None and same(cnt, cwant)))
+        ok = same(zyg, gts[gt]) and (missing(depth) if dwant_eff is None else (not missing(depth) and same(depth, dwant_eff))) and (missing(cnt) if cwant is None else (not missing(cnt) and same(cnt, cwant)))
         tb.cell(ok, dict(GT=gt, depth_source=dname, count_source=cname, got=(repr(depth), repr(zyg), repr(cnt)), want=(repr(dwant_eff), str(gts[gt]), repr(cwant))))
     tb.done("zygosity / depth / alt-allele count are not taken from the genotype fields in the documented precedence")
 
@@ -271,7 +271,22 @@ def d4(chk, prog):
         else:
             want = [i for i in range(5) if zy[i] not in (0, 1)]
         tb2.cell(ok and got == want, dict(paired=paired, every_record_somatic_by_genotype=all_somatic, read_args=repr(rd[2]), kept=got, want=want))
-    tb2.done("load_het_snps does not keep exactly the germline-heterozygous records (after the depth / somatic filters)")
+    # an explicit zygosity cut-off z: genotypes are re-derived from the frequencies, heterozygous <=> z <= freq < 1 - z
+    for z in (Fr(1, 10), Fr(1, 4), Fr(2, 5)):
+        W.reset()
+        freqs = [Fr(1, 20), Fr(1, 10), Fr(3, 10), Fr(1, 2), Fr(13, 20), Fr(17, 20), Fr(9, 10), Fr(19, 20)]
+        rows = [dict(chromosome="chr1", start=i, end=i + 1, ref="A", alt="C", zygosity=Fr(1, 2), alt_freq=f) for i, f in enumerate(freqs)]
+        varr = make_ga("VariantArray", rows, {"sample_id": "T"}, index="any", exact=True)
+        model = Model()
+        model.prims["skgenome.tabio.read"] = lambda it, fname, fmt=None, varr=varr, **kw: varr
+        it = Interp(prog, model)
+        out = tb2.guard(lambda: it.run(fl.qn, ["x.vcf", "T", None, 20, z, False]), f"zygosity_freq={z}")
+        if out is None:
+            continue
+        got = [int(T(x).cval()) for x in out.data.cols["start"].v]
+        want = [i for i, f in enumerate(freqs) if z <= f < 1 - z]
+        tb2.cell(got == want, dict(zygosity_freq=str(z), frequencies=[str(f) for f in freqs], kept=got, want=want))
+    tb2.done("load_het_snps does not keep exactly the germline-heterozygous records (after the depth / somatic filters; with a frequency cut-off z: z <= freq < 1 - z)")
 
 
 def d5(chk, prog):
